@@ -4,8 +4,8 @@ import MinterModel.TxLedger
   CreateSwapPool (34), AddLiquidity (21), RemoveLiquidity (22), Sell/Buy/SellAll swap pool (23/24/25) over routes of up to
   five coins on pools WITHOUT orders, AddLimitOrder (35) and RemoveLimitOrder (36) (escrow only; matching is modelled elsewhere).
 
-  Check-time and deliver-time differ exactly as in the Go code: the checks run on the pool as *simulated* after the
-  commission swap (`AddLastSwapStepWithOrders`, `simRes`), the execution runs on the pool as it really is after that swap (`PoolAdj`).
+  As in the Go code, the checks run on the pool as *simulated* after the commission swap (`AddLastSwapStepWithOrders`, `simRes`),
+  the execution runs on the pool as it really is after that swap (`PoolAdj`); `sim_vs_real` (Props/C15.lean) proves they coincide.
 -/
 namespace Minter
 
@@ -16,9 +16,8 @@ def isComPool (gas : Coin) (com : Com) (a b : Coin) : Bool :=
   com.fromPool && ((a == gas && b == 0) || (a == 0 && b == gas))
 
 /-- Reserves of pool `{a, b}` oriented `a → b` as the validation code sees them: when the commission is paid through this very
-    pool the code first applies `AddLastSwapStepWithOrders` with the commission swap.  Selling the gas coin (`a = gas`) the
-    simulated input is the *gross* commission (the 0.1 % burn is not deducted — the real swap deducts it); buying it
-    (`b = gas`) the simulation is exact. -/
+    pool the code first applies `AddLastSwapStepWithOrders` with the commission swap — the commission net of its 0.1 % burn enters
+    on the gas-coin side, its base-coin value leaves on the other side (both orientations; exact since /repo a9a396f). -/
 def simRes (s : State) (gas : Coin) (com : Com) (a b : Coin) : M (Int × Int) :=
   match poolRes s a b with
   | none => throw (.panic "GetSwapper on a missing pool")
@@ -31,16 +30,10 @@ def simRes (s : State) (gas : Coin) (com : Com) (a b : Coin) : M (Int × Int) :=
     | .panic w => throw (.panic w)
     | .nil => throw (.panic "AddLastSwapStepWithOrders with a nil amount")
     | .val inBase =>
-      if a == gas then
-        match sfbNoOrders rg r0 inBase with
-        | .panic w => throw (.panic w)
-        | .nil => throw (.panic "AddLastSwapStepWithOrders: nil calculated amount")
-        | .val _ => pure (rg + com.commission, r0 - inBase)
-      else
-        let net := com.commission - com1000 com.commission
-        match bfsNoOrders rg r0 net with
-        | .panic w => throw (.panic w)
-        | _ => pure (r0 - inBase, rg + net)
+      let net := if com.commission > 0 then com.commission - com1000 com.commission else com.commission
+      match bfsNoOrders rg r0 net with
+      | .panic w => throw (.panic w)
+      | _ => if a == gas then pure (rg + net, r0 - inBase) else pure (r0 - inBase, rg + net)
 
 /-- `basicCheck` of the three route transactions. -/
 def routeBasicGo (s : State) : Coin → List Coin → Option Nat
@@ -96,7 +89,7 @@ def runSellPool (P : Params) (o : Oracle) (s : State) (t : TxIn) (price : Int) :
       | .ok (.ok _) =>
         let first := coins.headD 0
         if t.gasCoin != first && balanceOf s t.sender t.gasCoin < com.commission then reject 107 else
-        if balanceOf s t.sender first < (if t.gasCoin == first then value + com.commission else value) then reject 107 else
+        if balanceOf s t.sender first < t.addIfGas first value com.commission then reject 107 else
         pure (.ok { payer := t.sender, coin := t.gasCoin, com := com,
                     exec := fun adj =>
                       match routeSellExec s adj t.sender (coins.headD 0) coins.tail value with
@@ -164,7 +157,7 @@ def runBuyPool (P : Params) (o : Oracle) (s : State) (t : TxIn) (price : Int) : 
       | .ok (.error c) => reject c
       | .ok (.ok pay) =>
         let first := coins.headD 0
-        if balanceOf s t.sender first < (if t.gasCoin == first then pay + com.commission else pay) then reject 107 else
+        if balanceOf s t.sender first < t.addIfGas first pay com.commission then reject 107 else
         if balanceOf s t.sender t.gasCoin < com.commission then reject 107 else
         pure (.ok { payer := t.sender, coin := t.gasCoin, com := com,
                     exec := fun adj =>
@@ -189,8 +182,8 @@ def runCreatePool (P : Params) (o : Oracle) (s : State) (t : TxIn) (price : Int)
   withCom P o s t.gasCoin price fun com =>
     let liquidity := startingSupply v0 v1
     if liquidity ≤ minLiquidity then reject 704 else
-    if balanceOf s t.sender c0 < (if t.gasCoin == c0 then v0 + com.commission else v0) then reject 107 else
-    if balanceOf s t.sender c1 < (if t.gasCoin == c1 then v1 + com.commission else v1) then reject 107 else
+    if balanceOf s t.sender c0 < t.addIfGas c0 v0 com.commission then reject 107 else
+    if balanceOf s t.sender c1 < t.addIfGas c1 v1 com.commission then reject 107 else
     if balanceOf s t.sender t.gasCoin < com.commission then reject 107 else
     let pid := s.pools.length + 1
     let (lo, hi, xlo, xhi) := sorted2 c0 c1 v0 v1
@@ -203,6 +196,32 @@ def runCreatePool (P : Params) (o : Oracle) (s : State) (t : TxIn) (price : Int)
 /-- The LP token of pool `{a, b}` (`GetCoinBySymbol("LP-<id>", 0)`). -/
 def lpCoin (s : State) (a b : Coin) : Option CoinInfo := coinBySymbolV0 s (lpSymbol (poolId s a b))
 
+/-- `PairMint` on the real reserves (after the commission swap): the second amount and the liquidity are recomputed, the maximum is
+    not looked at again. -/
+def addLiquidityExec (s : State) (who : Addr) (c0 c1 : Coin) (v0 : Int) (lp : CoinInfo) (adj : Option PoolAdj) :
+    M (List Move × List (String × String)) :=
+  match poolResAdj s adj c0 c1 with
+  | none => throw (.panic "PairMint on a missing pool")
+  | some (q0, q1) =>
+    if q0 == 0 then throw (.panic "division by zero") else
+    if lp.volume * v0 / q0 ≤ 0 then throw (.panic "INSUFFICIENT_LIQUIDITY_MINTED") else
+    pure ([.poolMint who (sorted2 c0 c1 v0 (v0 * q1 / q0)).1 (sorted2 c0 c1 v0 (v0 * q1 / q0)).2.1 (sorted2 c0 c1 v0 (v0 * q1 / q0)).2.2.1
+             (sorted2 c0 c1 v0 (v0 * q1 / q0)).2.2.2 lp.id (lp.volume * v0 / q0)],
+          [("tx.volume1", toString (v0 * q1 / q0)), ("tx.liquidity", toString (lp.volume * v0 / q0)), ("tx.pool_token_id", toString lp.id)])
+
+/-- `PairBurn` on the real reserves: panics when the amounts fall below the minimums (unreachable after a passed validation:
+    `remove_liquidity_exec_ok`, Props/C15.lean). -/
+def removeLiquidityExec (s : State) (who : Addr) (c0 c1 : Coin) (liq min0 min1 : Int) (lp : CoinInfo) (adj : Option PoolAdj) :
+    M (List Move × List (String × String)) :=
+  match poolResAdj s adj c0 c1 with
+  | none => throw (.panic "PairBurn on a missing pool")
+  | some (q0, q1) =>
+    if liq * q0 / lp.volume < min0 || liq * q1 / lp.volume < min1 then throw (.panic "INSUFFICIENT_LIQUIDITY_BURNED") else
+    pure ([.poolBurn who (sorted2 c0 c1 (liq * q0 / lp.volume) (liq * q1 / lp.volume)).1 (sorted2 c0 c1 (liq * q0 / lp.volume) (liq * q1 / lp.volume)).2.1
+             (sorted2 c0 c1 (liq * q0 / lp.volume) (liq * q1 / lp.volume)).2.2.1 (sorted2 c0 c1 (liq * q0 / lp.volume) (liq * q1 / lp.volume)).2.2.2
+             lp.id liq],
+          [("tx.volume0", toString (liq * q0 / lp.volume)), ("tx.volume1", toString (liq * q1 / lp.volume))])
+
 /-- AddLiquidity (21). -/
 def runAddLiquidity (P : Params) (o : Oracle) (s : State) (t : TxIn) (price : Int) : Handler :=
   let c0 := t.nat "d.Coin0"; let c1 := t.nat "d.Coin1"; let v0 := t.int "d.Volume0"; let max1 := t.int "d.MaximumVolume1"
@@ -211,7 +230,7 @@ def runAddLiquidity (P : Params) (o : Oracle) (s : State) (t : TxIn) (price : In
   if !coinExists s c0 then reject 102 else
   if !coinExists s c1 then reject 102 else
   withCom P o s t.gasCoin price fun com =>
-    if balanceOf s t.sender c0 < (if t.gasCoin == c0 then v0 + com.commission else v0) then reject 107 else
+    if balanceOf s t.sender c0 < t.addIfGas c0 v0 com.commission then reject 107 else
     match simRes s t.gasCoin com c0 c1 with
     | .error e => throw e
     | .ok (r0, r1) =>
@@ -222,20 +241,9 @@ def runAddLiquidity (P : Params) (o : Oracle) (s : State) (t : TxIn) (price : In
         let needed1 := v0 * r1 / r0
         if needed1 > max1 then reject 702 else
         if lp.volume * v0 / r0 ≤ 0 then reject 704 else
-        if balanceOf s t.sender c1 < (if t.gasCoin == c1 then needed1 + com.commission else needed1) then reject 107 else
+        if balanceOf s t.sender c1 < t.addIfGas c1 needed1 com.commission then reject 107 else
         if balanceOf s t.sender t.gasCoin < com.commission then reject 107 else
-        pure (.ok { payer := t.sender, coin := t.gasCoin, com := com,
-                    exec := fun adj =>
-                      match poolResAdj s adj c0 c1 with
-                      | none => throw (.panic "PairMint on a missing pool")
-                      | some (q0, q1) =>
-                        if q0 == 0 then throw (.panic "division by zero") else
-                        let liq := lp.volume * v0 / q0
-                        let a1 := v0 * q1 / q0
-                        if liq ≤ 0 then throw (.panic "INSUFFICIENT_LIQUIDITY_MINTED") else
-                        let (lo, hi, xlo, xhi) := sorted2 c0 c1 v0 a1
-                        pure ([.poolMint t.sender lo hi xlo xhi lp.id liq],
-                              [("tx.volume1", toString a1), ("tx.liquidity", toString liq), ("tx.pool_token_id", toString lp.id)]) })
+        pure (.ok { payer := t.sender, coin := t.gasCoin, com := com, exec := addLiquidityExec s t.sender c0 c1 v0 lp })
 
 /-- RemoveLiquidity (22). -/
 def runRemoveLiquidity (P : Params) (o : Oracle) (s : State) (t : TxIn) (price : Int) : Handler :=
@@ -252,21 +260,10 @@ def runRemoveLiquidity (P : Params) (o : Oracle) (s : State) (t : TxIn) (price :
       | none => throw (.panic "pool without its LP token")
       | some lp =>
         if t.gasCoin != lp.id && balanceOf s t.sender lp.id < liq then reject 107 else
-        if balanceOf s t.sender t.gasCoin < (if t.gasCoin == lp.id then liq + com.commission else com.commission) then reject 107 else
+        if balanceOf s t.sender t.gasCoin < t.addIfGas lp.id com.commission liq then reject 107 else
         if lp.volume == 0 then throw (.panic "division by zero") else
         if liq * r0 / lp.volume < min0 || liq * r1 / lp.volume < min1 then reject 705 else
-        pure (.ok { payer := t.sender, coin := t.gasCoin, com := com,
-                    exec := fun adj =>
-                      match poolResAdj s adj c0 c1 with
-                      | none => throw (.panic "PairBurn on a missing pool")
-                      | some (q0, q1) =>
-                        let a0 := liq * q0 / lp.volume
-                        let a1 := liq * q1 / lp.volume
-                        -- deliver-only fault site: the real pool (after the commission swap) may yield less than the simulated one
-                        if a0 < min0 || a1 < min1 then throw (.panic "INSUFFICIENT_LIQUIDITY_BURNED") else
-                        let (lo, hi, xlo, xhi) := sorted2 c0 c1 a0 a1
-                        pure ([.poolBurn t.sender lo hi xlo xhi lp.id liq],
-                              [("tx.volume0", toString a0), ("tx.volume1", toString a1)]) })
+        pure (.ok { payer := t.sender, coin := t.gasCoin, com := com, exec := removeLiquidityExec s t.sender c0 c1 liq min0 min1 lp })
 
 /-! ### Limit orders (escrow) -/
 
@@ -280,7 +277,7 @@ def runAddOrder (P : Params) (o : Oracle) (s : State) (block : Nat) (t : TxIn) (
   if !poolExists s sell buy then reject 701 else
   withCom P o s t.gasCoin price fun com =>
     if t.gasCoin != sell && balanceOf s t.sender t.gasCoin < com.commission then reject 107 else
-    if balanceOf s t.sender sell < (if t.gasCoin == sell then vSell + com.commission else vSell) then reject 107 else
+    if balanceOf s t.sender sell < t.addIfGas sell vSell com.commission then reject 107 else
     match simRes s t.gasCoin com sell buy with
     | .error e => throw e
     | .ok (rS, rB) =>
